@@ -9,7 +9,12 @@ MANIFEST = {}
 NOT_APPLICABLE = {}
 for _f in sorted(glob.glob(os.path.join(os.path.dirname(__file__), "c[0-9][0-9]*.py"))):
     _name = os.path.basename(_f)[:-3]
-    _m = importlib.import_module("props." + _name)
+    try:
+        _m = importlib.import_module("props." + _name)
+    except Exception as _e:  # a half-written module must not take the other properties down
+        import sys
+        print("[props] cannot load %s: %r" % (_name, _e), file=sys.stderr)
+        continue
     _pid = _name.upper()
     if getattr(_m, "NOT_APPLICABLE", None):
         NOT_APPLICABLE[_pid] = _m.NOT_APPLICABLE
